@@ -853,6 +853,74 @@ func TestC28(t *testing.T) {
 			r.Sample(map[string]any{"sequence": i, "first_steps": h})
 		}
 	})
+	// cleanup grid with a file-backed policy that quarantines some peers: a record is removed by the sweep iff it is
+	// expired and its peer is not connected — whether or not the peer is on the suspicious list
+	grid := 0
+	for rep := 0; rep < r.N(2, 20); rep++ {
+		dir := filepath.Join(base, fmt.Sprintf("grid-%d", rep))
+		os.MkdirAll(dir, 0o755)
+		var ids []string
+		for i := 0; i < 8; i++ {
+			ids = append(ids, hx(append([]byte{byte(2 + (i+rep)%2)}, randBytes(32)...)))
+		}
+		polText := "accept_all_peers=1\n"
+		for i, id := range ids {
+			if i&4 != 0 {
+				polText += "suspicious_peers=" + id + "\n"
+			}
+		}
+		polPath := filepath.Join(dir, "policy.conf")
+		os.WriteFile(polPath, []byte(polText), 0o644)
+		pol, err := policy.CreateFromFile(polPath)
+		if err != nil {
+			r.Inconclusive("grid policy: " + err.Error())
+			break
+		}
+		st, err := peersync.NewStore(filepath.Join(dir, "peersync.db"))
+		if err != nil {
+			r.Inconclusive("grid store: " + err.Error())
+			break
+		}
+		ln := &c28LN{connected: map[string]bool{}, ch: make(chan peersync.CustomMessage)}
+		ln.onSend = func(string, messages.MessageType, []byte) {}
+		nodeID, _ := peersync.NewPeerID("02ee0000000000000000000000000000000000000000000000000000000000ee")
+		ps := peersync.NewPeerSync(nodeID, st, ln, pol, []string{"btc", "lbtc"}, nil)
+		timeout := ps.VerifCleanupTimeout()
+		for i, id := range ids {
+			pid, _ := peersync.NewPeerID(id)
+			peer := peersync.NewPeer(pid, "")
+			as, _ := peersync.NewAsset("btc")
+			peer.UpdateCapability(peersync.NewPeerCapability(peersync.NewVersion(ver), []peersync.Asset{as}, true, premium.NewPPM(1), premium.NewPPM(2), premium.NewPPM(3), premium.NewPPM(4)))
+			if i&1 != 0 { // expired
+				peer.SetLastObservedAt(time.Now().Add(-timeout - time.Minute))
+			} else {
+				peer.SetLastObservedAt(time.Now().Add(-time.Minute))
+			}
+			st.SavePeerState(peer)
+			if i&2 != 0 {
+				ln.connected[id] = true
+			}
+		}
+		if err := ps.VerifCleanupExpired(context.Background()); err != nil {
+			r.Violate("cleanup", "C28|cleanup|sweep-fails-with-quarantined-peers", err.Error(), nil)
+		}
+		for i, id := range ids {
+			pid, _ := peersync.NewPeerID(id)
+			got, gerr := st.GetPeerState(pid)
+			present := gerr == nil && got != nil
+			expired, connected, suspicious := i&1 != 0, i&2 != 0, i&4 != 0
+			wantPresent := !(expired && !connected)
+			r.Eval()
+			grid++
+			r.Seen(fmt.Sprintf("cleanup-grid/expired=%v/connected=%v/quarantined=%v/kept=%v", expired, connected, suspicious, present))
+			if present != wantPresent {
+				r.Violate("cleanup", fmt.Sprintf("C28|cleanup|record-%s|expired=%v|connected=%v|quarantined=%v", map[bool]string{true: "kept", false: "removed"}[present], expired, connected, suspicious),
+					fmt.Sprintf("after the cleanup sweep the record of a peer (expired=%v, connected=%v, on the suspicious list=%v) is present=%v, expected %v", expired, connected, suspicious, present, wantPresent), nil)
+			}
+		}
+		st.Close()
+	}
+	r.Extra["cleanup_grid_points"] = grid
 	r.Extra["sequences"] = nSeq
 	r.Extra["steps"] = totalSteps
 	r.Extra["inbound_messages"] = totalPolls
